@@ -105,8 +105,7 @@ func (p *ProjectRunner) Run() error {
 			// a project shutdown was requested while the processes were being started:
 			// it could not see the ones that were not registered yet, they must not
 			// be launched behind its back
-			log.Info().Msgf("Project shutdown requested - process %s and the following ones won't be started", proc.ReplicaName)
-			break
+			log.Info().Msgf("Project shutdown requested - process %s won't be started", proc.ReplicaName)
 		}
 	}
 	p.waitGroup.Wait()
@@ -157,6 +156,8 @@ func (p *ProjectRunner) runProcessUnlessShutDown(config *types.ProcessConfig, at
 	)
 	verifYieldP(process, "runproc.beforeRegister")
 	if !p.addRunningProcessUnlessShutDown(process, atStartUp) {
+		// stopped before it was started: do not leave it Pending for ever
+		process.setState(types.ProcessStateCompleted)
 		return false
 	}
 	p.waitGroup.Add(1)
